@@ -190,9 +190,19 @@ func pfPrelude() []pfCase {
 	// callback variations
 	cbs := []pfStep{st("app.x.io", "/start-here", none, nil), st("app.x.io", "/second", none, nil)}
 	for _, k := range [][2]string{{"own", "own"}, {"stale-own", "own"}, {"other", "own"}, {"own", "other"}, {"same", "own"}, {"garbage", "own"}, {"own", "garbage"},
-		{"absent", "own"}, {"own", "absent"}, {"other-sid", "own"}, {"own", "other-sid"}, {"other-uri", "own"}, {"own", "other-uri"}, {"own-respelled", "own"}, {"own", "own-respelled"}, {"session", "session"}, {"otherkey", "own"}, {"own", "otherkey"}} {
+		{"absent", "own"}, {"own", "absent"}, {"other-sid", "own"}, {"own", "other-sid"}, {"other-uri", "own"}, {"own", "other-uri"}, {"own-respelled", "own"}, {"own", "own-respelled"}, {"session", "session"}, {"otherkey", "own"}, {"own", "otherkey"},
+		{"garbage", "session"}, {"otherkey", "session"}, {"own-respelled", "session"}, {"absent", "session"}, {"session", "own"}, {"own", "session"}} {
 		cbs = append(cbs, pfStep{Host: "app.x.io", StateKind: k[0], CsrfKind: k[1], Code: "c1"})
 	}
+	// two CSRF cookies in one request: the handler sees the first; a copy of the state (or anything else) behind it changes nothing
+	cbs = append(cbs,
+		pfStep{Host: "app.x.io", StateKind: "own", CsrfKind: "other", CsrfExtra: "state-copy", Code: "c1"},
+		pfStep{Host: "app.x.io", StateKind: "own", CsrfKind: "garbage", CsrfExtra: "state-copy", Code: "c1"},
+		pfStep{Host: "app.x.io", StateKind: "own", CsrfKind: "other", CsrfExtra: "own", Code: "c1"},
+		pfStep{Host: "app.x.io", StateKind: "other", CsrfKind: "own", CsrfExtra: "state-copy", Code: "c1"},
+		pfStep{Host: "app.x.io", StateKind: "own", CsrfKind: "session", CsrfExtra: "state-copy", Code: "c1"},
+		st("app.x.io", "/third", none, nil),
+		pfStep{Host: "app.x.io", StateKind: "own", CsrfKind: "own", CsrfExtra: "other", Code: "c1"})
 	cbs = append(cbs,
 		pfStep{Host: "app.x.io", StateKind: "own", CsrfKind: "own", Code: ""},
 		pfStep{Host: "app.x.io", StateKind: "own", CsrfKind: "own", Code: "c1", ErrParam: "access_denied"},
@@ -288,6 +298,21 @@ func pfPrelude() []pfCase {
 		st("app.x.io", "/public/%2E%2E/admin", S("app.x.io", nil), nil),
 		st("app.x.io", "/public/x/%2e%2e/y", none, nil),
 		st("app.x.io", "/a/%2e%2e/public/x", none, nil),
+	}})
+	// two rewrite upstreams with the very same pattern (a strict block placed above an old lenient one): the first one's rules,
+	// provider and backend apply
+	dup := pfBaseCfg()
+	dup.Upstreams = []pfUpstream{
+		{Service: "strict", From: `^[a-z]+\.apps\.x\.io$`, Rewrite: true, Addrs: []string{"root@x.io"}, Slug: "okta"},
+		{Service: "lenient", From: `^[a-z]+\.apps\.x\.io$`, Rewrite: true, Domains: []string{"x.io"}},
+		{Service: "app", From: "app.x.io", Domains: []string{"x.io"}},
+	}
+	cases = append(cases, pfCase{Cfg: dup, Steps: []pfStep{
+		st("foo.apps.x.io", "/", none, nil),
+		st("foo.apps.x.io", "/", S("foo.apps.x.io", nil), nil),                                 // ann: not on the strict list
+		st("foo.apps.x.io", "/", S("foo.apps.x.io", func(s *pfSess) { s.Slug = "okta" }), nil), // right provider, still not listed
+		st("foo.apps.x.io", "/", S("foo.apps.x.io", func(s *pfSess) { s.Email = "root@x.io"; s.Slug = "okta" }), nil),
+		st("foo.apps.x.io", "/oauth2/auth", S("foo.apps.x.io", nil), nil),
 	}})
 	// the same host name on two ports is two upstreams: a session is bound to the Host it was issued for, port included
 	prt := pfBaseCfg()
